@@ -1392,7 +1392,8 @@ class TrigInfo:
             Function.store_hass_context(hass_context)
 
             if task_unique and task_unique_func:
-                await task_unique_func(task_unique)
+                kill_me = bool(self.task_unique_kwargs and self.task_unique_kwargs.get("kill_me"))
+                await task_unique_func(task_unique, kill_me=kill_me)
             try:
                 await ast_ctx.call_func(func, None, **kwargs)
             except Exception as e:
